@@ -287,6 +287,9 @@ def d2(db, rep):
     rep.extra["constant_index_reads_of_insns"] = ne
     if ne < 3:
         raise AnalysisBroken("only %d constant-index reads of an insns[] array found" % ne)
+    # D1f: no NULL is entered into the code-region table (a failed mapping must leave later compiles able to fall back)
+    import importlib as _il
+    _il.import_module("rules.c09").region_entries_nonnull(db, rep, "D1f-REGION-NONNULL")
     # D1d: slots carved out of a constant-size heap block lie inside it (instances on the unchanged tree: none; control: fixtures/carve.c)
     from rules_common import check_block_offsets
     rep.extra["block_offset_sites_judged"] = check_block_offsets(db, [g for g in db.all_functions() if g.relfile.startswith("orc/") or g.relfile.startswith("tools/")], rep, "D1d-BLOCK-OFFSET")
